@@ -1,11 +1,13 @@
 PROP = dict(
-    modules=["Shangrla.Props.C01"],
+    modules=["Shangrla.Props.C01", "Shangrla.Props.C01IID"],
     theorems=["Shangrla.C01.C01_finite_alpha", "Shangrla.C01.C01_finite_betting", "Shangrla.C01.C01_finite_alpha_fixed",
               "Shangrla.C01.C01_finite_alpha_optimal", "Shangrla.C01.C01_finite_betting_fixed",
-              "Shangrla.C01.reported_implies_value_betting", "Shangrla.C01.reported_implies_value", "Shangrla.C01.mask_le_alpha",
+              "Shangrla.C01.reported_implies_value_betting",
+              "Shangrla.C01.C01_iid_alpha", "Shangrla.C01.C01_iid_betting", "Shangrla.C01.C01_iid_alpha_fixed",
+              "Shangrla.C01.C01_iid_betting_fixed", "Shangrla.C01.process_ville_iid", "Shangrla.Ville.hitIID_le", "Shangrla.C01.reported_implies_value", "Shangrla.C01.mask_le_alpha",
               "Shangrla.C01.alphaQ_super", "Shangrla.NM.process_ville", "Shangrla.Ville.hitEv_le",
               "Shangrla.Ville.superstep", "Shangrla.NM.Tq_snoc"],
     groups={"nmrisk": (200, 2500), "nm": (800, 10000)},
     design_ref="DESIGN.md section 5, C01",
-    partial="proved so far: ALPHA without replacement for every predictable finite estimator; see DESIGN.md for the list of remaining cases",
+    partial="proved: ALPHA and betting, without replacement and IID (finitely supported laws), for every predictable finite estimator / bet, with instances for fixed alternative, optimal comparison, fixed bet; not yet proved in Lean (covered by the exact-risk correspondence/oracle only): shrink_trunc and agrapa instances, Kaplan-Kolmogorov/Markov/Wald, SPRT; laws that are not finitely supported",
 )
